@@ -1,0 +1,11 @@
+//go:build verif
+
+// Verification hooks (read-only): compiled only with -tags verif.
+
+package uniformdh
+
+// VerifGenerateKey calls the unexported generateKey on chosen private bytes
+// (GenerateKey(io.Reader) only ever passes exactly Size bytes).
+func VerifGenerateKey(privBytes []byte) (*PrivateKey, error) {
+	return generateKey(privBytes)
+}
